@@ -230,12 +230,12 @@ class FQN:
                 None or the found object
             """
             ret = _find_obj_fqn(p, name, cls)
-            if ret:
+            if ret is not None:
                 return ret
             while hasattr(p, "parent"):
                 p = p.parent
                 ret = _find_obj_fqn(p, name, cls)
-                if ret:
+                if ret is not None:
                     return ret
                 # else continue to next parent or return None
 
